@@ -328,7 +328,8 @@ func readStream(x *explore.Ctx, id string, g *genStream, stream []byte, readerIs
 		rprog, abandon = 1, v-3 // 1: after 0 bytes, 2: after 1 byte, 3: after half, 4: after 3 bytes
 	}
 	rbuf := 4096
-	if rprog == 1 {
+	if rprog >= 1 {
+		// NextReader+Read and JoinMessages are read with the chosen buffer size
 		rbuf = rbufChoices[x.Choose(len(rbufChoices), "readsize")]
 	}
 	key := func(what string) string {
@@ -457,8 +458,19 @@ func readStream(x *explore.Ctx, id string, g *genStream, stream []byte, readerIs
 		if rprog == 3 {
 			term = ","
 		}
-		all, err := io.ReadAll(io.LimitReader(websocket.JoinMessages(c, term), 1<<26))
-		x.Check(err != nil, key("join-end"), "JoinMessages reader ended without the connection's error")
+		jr := websocket.JoinMessages(c, term)
+		var all []byte
+		var err error
+		jbuf := make([]byte, rbuf)
+		for len(all) < 1<<26 {
+			var n int
+			n, err = jr.Read(jbuf)
+			all = append(all, jbuf[:n]...)
+			if err != nil {
+				break
+			}
+		}
+		x.Check(err != nil && err != io.EOF, key("join-end"), "JoinMessages reader ended without the connection's error (%v)", err)
 		var exp []byte
 		for _, m := range want {
 			exp = append(exp, m.Payload...)
